@@ -145,6 +145,14 @@ def case_trial(R, res, lines, expect):
     from keras_tuner.engine import trial as tm, metrics_tracking as mt
     specs = rich_specs(R)
     hps = gen.build_space(specs)
+    if R.random() < 0.5:
+        # values that have no entry in the space: the bookkeeping entries Hyperband adds to a trial, or a value set ahead of
+        # the declaration that will use it - they are part of the trial's values and must survive like any other
+        hps.values.update({"tuner/epochs": R.randint(1, 9), "tuner/initial_epoch": 0, "tuner/bracket": R.randint(0, 3), "tuner/round": R.randint(0, 3)})
+        if R.random() < 0.5:
+            hps.values["tuner/trial_id"] = "0007"
+        if R.random() < 0.3:
+            hps.values["declared_later"] = R.choice([0.25, 3, "x", True])
     t = tm.Trial(hyperparameters=hps, trial_id=str(R.randint(0, 99)), status=R.choice(["RUNNING", "COMPLETED", "INVALID", "FAILED"]))
     names = R.sample(["loss", "val_acc", "score", "m/x"], R.randint(0, 3))
     for nme in names:
@@ -161,6 +169,8 @@ def case_trial(R, res, lines, expect):
     st2 = through_json(t2.get_state())
     if canon(st2) != canon(st):
         raise Violation("C15", f"trial state changes on a round trip: {canon(st)[:200]} -> {canon(st2)[:200]}", {"tag": "trial-state"})
+    if {k: (kind_of(v), v) for k, v in t2.hyperparameters.values.items()} != {k: (kind_of(v), v) for k, v in t.hyperparameters.values.items()}:
+        raise Violation("C15", f"the trial's values differ after the round trip: {t.hyperparameters.values} -> {t2.hyperparameters.values}", {"tag": "trial-values"})
     if (t2.trial_id, t2.status, t2.message, t2.best_step) != (t.trial_id, t.status, t.message, t.best_step) or fl_str(t2.score) != fl_str(t.score):
         raise Violation("C15", "trial id / status / message / best_step / score differ after the round trip", {"tag": "trial-fields"})
     for nme in names:
